@@ -600,7 +600,7 @@ func (x Expr) Get(data any) (results []any) {
 				end = tf[1]
 			}
 			if 2 < len(tf) {
-				step = tf[2]
+				step = boundStep(tf[2])
 				if step == 0 {
 					continue
 				}
@@ -1447,7 +1447,7 @@ func (x Expr) FirstFound(data any) (any, bool) {
 				end = tf[1]
 			}
 			if 2 < len(tf) {
-				step = tf[2]
+				step = boundStep(tf[2])
 				if step == 0 {
 					continue
 				}
